@@ -9,20 +9,23 @@ Local Open Scope Z_scope.
 (* an item: datatype, count, the count * size bytes the emulation reads (contiguous) *)
 Definition item := (Z * Z * list Z)%type.
 Definition it_data (it : item) : list Z := snd it.
-Definition item_ok (it : item) : Prop := let '(t, n, d) := it in valid_dt t /\ 0 <= n /\ len d = n * type_size t.
+(* count * size < 2^31: the domain of sc_MPI_Pack_size (its product is an `int`, F-C16d) *)
+Definition item_ok (it : item) : Prop := let '(t, n, d) := it in valid_dt t /\ 0 <= n /\ len d = n * type_size t /\ len d < 2 ^ 31.
 Definition total (items : list item) : Z := fold_right (fun it a => len (it_data it) + a) 0 items.
 
 (* ---- one call, as list surgery ---- *)
-Lemma pack_step t n d buf pos : valid_dt t -> 0 <= n -> len d = n * type_size t -> 0 <= pos -> pos + len d < 2 ^ 31 ->
+Lemma pack_step t n d buf pos : valid_dt t -> 0 <= n -> len d = n * type_size t -> len d < 2 ^ 31 -> 0 <= pos < 2 ^ 31 ->
+  len buf < 2 ^ 31 ->
   sc_pack d n t buf (len buf) pos =
   if pos + len d <=? len buf then (SUCCESS, Some (take pos buf ++ d ++ drop (pos + len d) buf), pos + len d)
   else (ERR_NO_SPACE, Some buf, pos).
 Proof.
-  intros Hv Hn Hd Hp Hb. pose proof (dt_bounds t Hv) as (Hb1 & Hb2). pose proof (len_nonneg d) as Hd0.
-  unfold sc_pack, pack_copy. rewrite (pack_bytes_small n t Hv Hn ltac:(nia)). rewrite <- Hd.
-  destruct (pack_arith pos (len d) (len buf) Hp Hd0 Hb) as (-> & -> & ->).
+  intros Hv Hn Hd Hds Hp Hb. pose proof (dt_bounds t Hv) as (Hb1 & Hb2). pose proof (len_nonneg d) as Hd0.
+  pose proof (len_nonneg buf) as Hbuf0.
+  unfold sc_pack, pack_copy. rewrite (pack_bytes_small n t Hv Hn ltac:(lia)). rewrite <- Hd.
+  destruct (pack_arith pos (len d) (len buf) Hp ltac:(lia) ltac:(lia)) as (-> & -> & Hadv).
   rewrite Z.gtb_ltb. destruct (pos + len d <=? len buf) eqn:E.
-  - apply Z.leb_le in E. replace (len buf <? pos + len d) with false by (symmetry; apply Z.ltb_ge; lia).
+  - apply Z.leb_le in E. rewrite (Hadv E). replace (len buf <? pos + len d) with false by (symmetry; apply Z.ltb_ge; lia).
     unfold memcpy_at. replace ((0 <=? len d) && (0 <=? 0) && (0 + len d <=? len d))%bool with true
       by (symmetry; rewrite !andb_true_iff; repeat split; apply Z.leb_le; lia).
     unfold drop at 1. cbn [Z.to_nat skipn]. rewrite take_all by lia.
@@ -31,18 +34,19 @@ Proof.
   - apply Z.leb_gt in E. replace (len buf <? pos + len d) with true by (symmetry; apply Z.ltb_lt; lia). reflexivity.
 Qed.
 
-Lemma unpack_step t n o buf pos : valid_dt t -> 0 <= n -> n * type_size t <= len o -> 0 <= pos -> pos + n * type_size t < 2 ^ 31 ->
+Lemma unpack_step t n o buf pos : valid_dt t -> 0 <= n -> n * type_size t <= len o -> n * type_size t < 2 ^ 31 ->
+  0 <= pos < 2 ^ 31 -> len buf < 2 ^ 31 ->
   sc_unpack buf (len buf) pos o n t =
   if pos + n * type_size t <=? len buf
   then (SUCCESS, Some (take (n * type_size t) (drop pos buf) ++ drop (n * type_size t) o), pos + n * type_size t)
   else (ERR_NO_SPACE, Some o, pos).
 Proof.
-  intros Hv Hn Ho Hp Hb. pose proof (dt_bounds t Hv) as (Hb1 & Hb2).
-  unfold sc_unpack, unpack_copy. rewrite (pack_bytes_small n t Hv Hn ltac:(nia)).
+  intros Hv Hn Ho Hks Hp Hb. pose proof (dt_bounds t Hv) as (Hb1 & Hb2). pose proof (len_nonneg buf) as Hbuf0.
+  unfold sc_unpack, unpack_copy. rewrite (pack_bytes_small n t Hv Hn Hks).
   set (k := n * type_size t) in *. assert (Hk : 0 <= k) by (unfold k; nia).
-  destruct (pack_arith pos k (len buf) Hp Hk Hb) as (-> & -> & ->).
+  destruct (pack_arith pos k (len buf) Hp ltac:(lia) ltac:(lia)) as (-> & -> & Hadv).
   rewrite Z.gtb_ltb. destruct (pos + k <=? len buf) eqn:E.
-  - apply Z.leb_le in E. replace (len buf <? pos + k) with false by (symmetry; apply Z.ltb_ge; lia).
+  - apply Z.leb_le in E. rewrite (Hadv E). replace (len buf <? pos + k) with false by (symmetry; apply Z.ltb_ge; lia).
     unfold memcpy_at. replace ((0 <=? k) && (0 <=? pos) && (pos + k <=? len buf))%bool with true
       by (symmetry; rewrite !andb_true_iff; repeat split; apply Z.leb_le; lia).
     assert (Hl : len (take k (drop pos buf)) = k) by (rewrite len_take, len_drop; lia).
@@ -91,7 +95,7 @@ Proof. induction items as [|it r IH]; cbn [total fold_right]; [lia|]. pose proof
 
 (* packing succeeds iff everything fits; then exactly the bytes [pos, pos + total) change: they are the
    concatenated data; the final position is pos + total and the position after each call is the running sum *)
-Lemma pack_seq_spec : forall items buf pos, Forall item_ok items -> 0 <= pos <= len buf -> pos + total items < 2 ^ 31 ->
+Lemma pack_seq_spec : forall items buf pos, Forall item_ok items -> 0 <= pos <= len buf -> len buf < 2 ^ 31 ->
   match pack_seq items buf pos with
   | Some (buf', posN, ps) =>
       pos + total items <= len buf /\ posN = pos + total items /\ ps = positions pos items /\
@@ -102,10 +106,10 @@ Proof.
   induction items as [|[[t n] d] r IH]; intros buf pos Hok Hp Hb.
   - cbn [pack_seq total fold_right map concat app positions]. rewrite Z.add_0_r.
     split; [lia|]. split; [reflexivity|]. split; [reflexivity|]. symmetry. apply take_drop_id.
-  - inversion Hok as [|x l Hit Hr]; subst. destruct Hit as (Hv & Hn & Hd).
+  - inversion Hok as [|x l Hit Hr]; subst. destruct Hit as (Hv & Hn & Hd & Hds).
     cbn [total fold_right it_data snd] in *. fold (total r) in *.
     pose proof (total_nonneg r) as Ht. pose proof (len_nonneg d) as Hd0.
-    cbn [pack_seq]. rewrite (pack_step t n d buf pos Hv Hn Hd ltac:(lia) ltac:(lia)).
+    cbn [pack_seq]. rewrite (pack_step t n d buf pos Hv Hn Hd Hds ltac:(lia) Hb).
     destruct (pos + len d <=? len buf) eqn:E.
     + apply Z.leb_le in E. rewrite success_refl.
       set (b1 := take pos buf ++ d ++ drop (pos + len d) buf).
@@ -135,14 +139,15 @@ Definition delivered (items : list item) (outs : list (list Z)) : list (list Z) 
   map (fun io => let '((_, _, d), o) := io in d ++ drop (len d) o) (combine items outs).
 
 Lemma unpack_seq_spec : forall items outs pre post pos, Forall item_ok items ->
-  Forall2 (fun it o => len (it_data it) <= len o) items outs -> len pre = pos -> pos + total items < 2 ^ 31 ->
+  Forall2 (fun it o => len (it_data it) <= len o) items outs -> len pre = pos ->
+  len (pre ++ concat (map it_data items) ++ post) < 2 ^ 31 ->
   unpack_seq (shape_of items outs) (pre ++ concat (map it_data items) ++ post) pos
   = Some (delivered items outs, pos + total items, positions pos items).
 Proof.
   induction items as [|[[t n] d] r IH]; intros outs pre post pos Hok Hf Hpre Hb.
   - inversion Hf; subst. cbn. rewrite Z.add_0_r. reflexivity.
   - inversion Hf as [|x o l outs' Hlo Hf']; subst. inversion Hok as [|x l Hit Hr]; subst.
-    destruct Hit as (Hv & Hn & Hd). cbn [it_data snd] in Hlo.
+    destruct Hit as (Hv & Hn & Hd & Hds). cbn [it_data snd] in Hlo.
     cbn [total fold_right it_data snd] in *. fold (total r) in *.
     pose proof (total_nonneg r) as Ht. pose proof (len_nonneg d) as Hd0. pose proof (len_nonneg pre) as Hp0.
     cbn [shape_of combine map unpack_seq delivered positions it_data snd concat].
@@ -150,14 +155,17 @@ Proof.
     assert (Hlb : len buf = len pre + len d + len (concat (map it_data r)) + len post)
       by (unfold buf; rewrite !len_app; lia).
     pose proof (len_nonneg (concat (map it_data r))). pose proof (len_nonneg post).
-    rewrite (unpack_step t n o buf (len pre) Hv Hn ltac:(lia) ltac:(lia) ltac:(lia)).
+    cbn [map concat it_data snd] in Hb. fold buf in Hb.
+    rewrite (unpack_step t n o buf (len pre) Hv Hn ltac:(lia) ltac:(lia) ltac:(lia) Hb).
     rewrite <- Hd. replace (len pre + len d <=? len buf) with true by (symmetry; apply Z.leb_le; lia).
     rewrite success_refl.
     assert (Hdata : take (len d) (drop (len pre) buf) = d).
     { unfold buf. rewrite drop_app_exact. rewrite <- app_assoc. apply take_app_exact. }
     rewrite Hdata.
     replace buf with ((pre ++ d) ++ concat (map it_data r) ++ post) by (unfold buf; rewrite <- !app_assoc; reflexivity).
-    fold (shape_of r outs'). rewrite (IH outs' (pre ++ d) post (len pre + len d) Hr Hf' ltac:(rewrite len_app; lia) ltac:(lia)).
+    assert (Hb2 : len ((pre ++ d) ++ concat (map it_data r) ++ post) < 2 ^ 31)
+      by (replace ((pre ++ d) ++ concat (map it_data r) ++ post) with buf by (unfold buf; rewrite <- !app_assoc; reflexivity); exact Hb).
+    fold (shape_of r outs'). rewrite (IH outs' (pre ++ d) post (len pre + len d) Hr Hf' ltac:(rewrite len_app; lia) Hb2).
     fold (delivered r outs'). rewrite Z.add_assoc. reflexivity.
 Qed.
 
@@ -166,7 +174,7 @@ Qed.
    output buffer held behind them), the positions after the i-th Pack and the i-th Unpack agree for every i,
    the bytes of the buffer outside [pos, final position) are untouched, and the two final positions agree. *)
 Theorem pack_unpack_roundtrip items outs buf pos buf' posN ps : Forall item_ok items ->
-  Forall2 (fun it o => len (it_data it) <= len o) items outs -> 0 <= pos <= len buf -> pos + total items < 2 ^ 31 ->
+  Forall2 (fun it o => len (it_data it) <= len o) items outs -> 0 <= pos <= len buf -> len buf < 2 ^ 31 ->
   pack_seq items buf pos = Some (buf', posN, ps) ->
   unpack_seq (shape_of items outs) buf' pos = Some (delivered items outs, posN, ps) /\
   posN = pos + total items /\ posN <= len buf /\ len buf' = len buf /\
@@ -178,7 +186,7 @@ Proof.
   { clear. induction items as [|it r IH]; [reflexivity|]. cbn [map concat total fold_right]. rewrite len_app, IH. reflexivity. }
   assert (Hlt : len (take pos buf) = pos) by (apply len_take_le; lia).
   subst posN ps buf'. split.
-  - apply unpack_seq_spec; assumption.
+  - apply unpack_seq_spec; try assumption. rewrite !len_app, Hlt, Hc, len_drop_le by lia. lia.
   - split; [reflexivity|]. split; [assumption|].
     split; [rewrite !len_app, Hlt, Hc, len_drop_le by lia; lia|]. split.
     + rewrite <- Hlt at 1. rewrite take_app_exact. reflexivity.
@@ -187,7 +195,7 @@ Proof.
 Qed.
 
 (* if the items do not fit, some Pack call refuses: no sequence of successes writes behind the buffer *)
-Theorem pack_seq_refuses items buf pos : Forall item_ok items -> 0 <= pos <= len buf -> pos + total items < 2 ^ 31 ->
+Theorem pack_seq_refuses items buf pos : Forall item_ok items -> 0 <= pos <= len buf -> len buf < 2 ^ 31 ->
   (pack_seq items buf pos = None <-> len buf < pos + total items).
 Proof.
   intros Hok Hp Hb. pose proof (pack_seq_spec items buf pos Hok Hp Hb) as H.
@@ -198,20 +206,18 @@ Qed.
 
 (* two consecutive Packs of the same datatype are one Pack of the concatenated data *)
 Theorem pack_twice_is_pack_once t n1 n2 d1 d2 buf pos : item_ok (t, n1, d1) -> item_ok (t, n2, d2) ->
-  0 <= pos <= len buf -> pos + len d1 + len d2 < 2 ^ 31 ->
+  0 <= pos <= len buf -> len buf < 2 ^ 31 -> len d1 + len d2 < 2 ^ 31 ->
   match pack_seq [(t, n1, d1); (t, n2, d2)] buf pos, pack_seq [(t, n1 + n2, d1 ++ d2)] buf pos with
   | Some (b, p, _), Some (b', p', _) => b = b' /\ p = p'
   | None, None => True
   | _, _ => False
   end.
 Proof.
-  intros H1 H2 Hp Hb.
+  intros H1 H2 Hp Hb Hsum.
   assert (H12 : item_ok (t, n1 + n2, d1 ++ d2)).
-  { destruct H1 as (Hv & Hn1 & Hd1). destruct H2 as (_ & Hn2 & Hd2). split; [assumption|]. split; [lia|]. rewrite len_app. lia. }
-  pose proof (pack_seq_spec [(t, n1, d1); (t, n2, d2)] buf pos (Forall_cons _ H1 (Forall_cons _ H2 (Forall_nil _))) Hp
-                ltac:(cbn [total fold_right it_data snd]; lia)) as Ha.
-  pose proof (pack_seq_spec [(t, n1 + n2, d1 ++ d2)] buf pos (Forall_cons _ H12 (Forall_nil _)) Hp
-                ltac:(cbn [total fold_right it_data snd]; rewrite len_app; lia)) as Hb'.
+  { destruct H1 as (Hv & Hn1 & Hd1 & _). destruct H2 as (_ & Hn2 & Hd2 & _). split; [assumption|]. split; [lia|]. rewrite len_app. split; lia. }
+  pose proof (pack_seq_spec [(t, n1, d1); (t, n2, d2)] buf pos (Forall_cons _ H1 (Forall_cons _ H2 (Forall_nil _))) Hp Hb) as Ha.
+  pose proof (pack_seq_spec [(t, n1 + n2, d1 ++ d2)] buf pos (Forall_cons _ H12 (Forall_nil _)) Hp Hb) as Hb'.
   cbn [total fold_right it_data snd map concat] in Ha, Hb'. rewrite len_app in Hb'. rewrite app_nil_r in *.
   destruct (pack_seq [(t, n1, d1); (t, n2, d2)] buf pos) as [[[b p] ps]|];
     destruct (pack_seq [(t, n1 + n2, d1 ++ d2)] buf pos) as [[[b' p'] ps']|]; try lia.
@@ -220,7 +226,7 @@ Proof.
 Qed.
 
 (* ---- the position at the boundary ---- *)
-Theorem pack_boundary t n d buf pos : item_ok (t, n, d) -> 0 <= pos <= len buf -> pos + len d < 2 ^ 31 ->
+Theorem pack_boundary t n d buf pos : item_ok (t, n, d) -> 0 <= pos <= len buf -> len buf < 2 ^ 31 ->
   (* exact fit: accepted, the data are the tail of the buffer, the position is the size *)
   (pos + len d = len buf -> sc_pack d n t buf (len buf) pos = (SUCCESS, Some (take pos buf ++ d), len buf)) /\
   (* one byte too many: refused, nothing changes *)
@@ -228,7 +234,7 @@ Theorem pack_boundary t n d buf pos : item_ok (t, n, d) -> 0 <= pos <= len buf -
   (* nothing to pack: accepted at every legal position including position = size; nothing changes *)
   (n = 0 -> sc_pack d n t buf (len buf) pos = (SUCCESS, Some buf, pos)).
 Proof.
-  intros (Hv & Hn & Hd) Hp Hb. rewrite (pack_step t n d buf pos Hv Hn Hd ltac:(lia) Hb). repeat split.
+  intros (Hv & Hn & Hd & Hds) Hp Hb. rewrite (pack_step t n d buf pos Hv Hn Hd Hds ltac:(lia) Hb). repeat split.
   - intros E. replace (pos + len d <=? len buf) with true by (symmetry; apply Z.leb_le; lia).
     rewrite E. rewrite (drop_all (len buf) buf) by lia. rewrite app_nil_r. reflexivity.
   - intros E. replace (pos + len d <=? len buf) with false by (symmetry; apply Z.leb_gt; lia). reflexivity.
@@ -236,15 +242,15 @@ Proof.
     replace (pos <=? len buf) with true by (symmetry; apply Z.leb_le; lia). cbn [app]. rewrite take_drop_id. reflexivity.
 Qed.
 
-Theorem unpack_boundary t n o buf pos : valid_dt t -> 0 <= n -> n * type_size t <= len o -> 0 <= pos <= len buf ->
-  pos + n * type_size t < 2 ^ 31 ->
+Theorem unpack_boundary t n o buf pos : valid_dt t -> 0 <= n -> n * type_size t <= len o -> n * type_size t < 2 ^ 31 ->
+  0 <= pos <= len buf -> len buf < 2 ^ 31 ->
   (* the request ends at the end of the message: accepted, the position becomes the size *)
   (pos + n * type_size t = len buf ->
    sc_unpack buf (len buf) pos o n t = (SUCCESS, Some (drop pos buf ++ drop (n * type_size t) o), len buf)) /\
   (pos + n * type_size t = len buf + 1 -> sc_unpack buf (len buf) pos o n t = (ERR_NO_SPACE, Some o, pos)) /\
   (n = 0 -> sc_unpack buf (len buf) pos o n t = (SUCCESS, Some o, pos)).
 Proof.
-  intros Hv Hn Ho Hp Hb. rewrite (unpack_step t n o buf pos Hv Hn Ho ltac:(lia) Hb). repeat split.
+  intros Hv Hn Ho Hks Hp Hb. rewrite (unpack_step t n o buf pos Hv Hn Ho Hks ltac:(lia) Hb). repeat split.
   - intros E. replace (pos + n * type_size t <=? len buf) with true by (symmetry; apply Z.leb_le; lia).
     rewrite E. rewrite take_all by (rewrite len_drop_le by lia; lia). reflexivity.
   - intros E. replace (pos + n * type_size t <=? len buf) with false by (symmetry; apply Z.leb_gt; lia). reflexivity.
